@@ -67,6 +67,17 @@ fn member(r: &mut Rng, now: i128, dir: i128) -> Option<Value> {
         0 | 1 => None,
         2 => Some(Value::Null),
         3 => Some(non_timestamp_value_at(r, now)),
+        5 => {
+            // the ends of the four-digit-year range, where local time and UTC fall into different years
+            const FAR_FUTURE: [&str; 8] = [
+                "9999-12-31T23:59:59Z", "9999-12-31T23:59:59-01:00", "9999-12-31T23:59:59.999999999-00:01", "9999-12-31T12:00:00-12:00",
+                "9999-12-31T23:59:59-23:59", "9999-12-31T00:00:00+00:00", "9999-06-15T12:00:00-08:00", "9999-12-31T23:59:59.999999999Z",
+            ];
+            const FAR_PAST: [&str; 5] = ["0000-01-01T00:00:00Z", "0000-01-01T00:00:00+23:59", "0001-01-01T00:00:00+00:01", "0000-12-31T23:59:59+12:00", "0001-01-01T00:00:00Z"];
+            // mostly the side on which the member must make the parse fail
+            let future = if r.chance(3, 4) { dir < 0 } else { dir > 0 };
+            Some(json!(if future { *r.pick(&FAR_FUTURE) } else { *r.pick(&FAR_PAST) }))
+        }
         4 => {
             // a look-alike denoting an instant on the *good* side of now: only strict parsing rejects it
             let t = (now + dir * r.range(DAY, 365 * DAY)).clamp(T_1971, t_9000() - 1);
